@@ -82,6 +82,8 @@ def judge(report, module, events, chunk=60000, timeout=1500, relevant=None):
             if cl:
                 if "OUTDOM" in cl:
                     raise MachineryError(f"input outside the oracle's exact domain: {json.dumps(e)[:800]}")
+                if "ORACLE" in cl:
+                    raise MachineryError(f"the specification's oracle disagrees with its cross-check: {json.dumps(e)[:800]}")
                 nrej += 1
                 site = e.get("site", e.get("op"))
                 k2 = (site, e.get("sr"), tuple(sorted(cl)), e.get("exc"))
